@@ -11,11 +11,13 @@
 (***************************************************************************)
 EXTENDS AccessDecision, Json
 
-CONSTANTS Slice,   \* "crit" | "rules" | "relay" | "dom" | "grants" | "gov" | "sig" | "table"
-          Big      \* FALSE: quick bound, TRUE: thorough bound
+CONSTANTS Slice,   \* "crit" | "rules" | "relay" | "dom" | "grants" | "gov" | "sig" | "forge" | "table"
+          Big,     \* FALSE: quick bound, TRUE: thorough bound
+          MaxEdits \* slice "forge": number of cooperating edits of a signed container (0 elsewhere)
 
-VARIABLES doc, subj, phase
-vars == <<doc, subj, phase>>
+VARIABLES doc, subj, phase,
+          fb, fca   \* slice "forge": the assembled container (AccessDecision!fblob) and the configured CA
+vars == <<doc, subj, phase, fb, fca>>
 
 Pats5  == {"A", "A*", "*", "?B", "[AB]"}
 Names3 == <<"A", "AB", "B">>
@@ -113,8 +115,30 @@ Queries ==
   {[op |-> o, dom |-> d, topic |-> t, parts |-> <<>>] : o \in PublicOps, d \in ToSet(QU.doms), t \in ToSet(QU.topics)}
   \cup {[op |-> o, dom |-> d, topic |-> t, parts |-> p] : o \in DirectOps, d \in ToSet(QU.doms), t \in ToSet(QU.topics), p \in ToSet(QU.parts)}
 
-Init == doc \in Docs /\ subj \in Subjects /\ phase = 0
-Next == phase = 0 /\ phase' = 1 /\ UNCHANGED <<doc, subj>>
+(* ---- slice "forge": a party without any CA key assembles a signed container ---- *)
+\* Materials: the signature parts the three signers made for the target document "T" and for
+\* another document "O" (Init picks which one is carried, and which CA is configured); then up
+\* to MaxEdits cooperating edits, each of them something that needs no key: transport another
+\* content, rewrite a signed attribute (the signature value stays), exchange / damage the
+\* signature value, replace a field that lies outside the signature.
+NoBlob == [content |-> "-"]
+ForgeInit == /\ doc \in SigDocs /\ subj = "S1" /\ phase = 0
+             /\ fb \in {FBase(by, of) : by \in Signers, of \in {"T", "O"}}
+             /\ fca \in {"CA", "foreign"}
+ForgeEdit ==
+  \/ fb.content = "T" /\ \E c \in {"O", "E"} : fb' = [fb EXCEPT !.content = c]
+  \/ fb.md = fb.of /\ \E m \in {"T", "O", "E", "junk"} \ {fb.of} : fb' = [fb EXCEPT !.md = m]
+  \/ fb.rest = "orig" /\ fb' = [fb EXCEPT !.rest = "alt"]
+  \/ fb.sig = fb.of /\ \E v \in {"T", "O", "junk"} \ {fb.of} : fb' = [fb EXCEPT !.sig = v]
+  \/ \E f \in UFields : fb.un[f] = "orig" /\ \E v \in UAlts(f) : fb' = [fb EXCEPT !.un[f] = v]
+ForgeNext ==
+  \/ phase = 0 /\ phase' = 1 /\ UNCHANGED <<doc, subj, fb, fca>>
+  \/ phase = 1 /\ FEdits(fb) < MaxEdits /\ ForgeEdit /\ UNCHANGED <<doc, subj, phase, fca>>
+
+Init == IF Slice = "forge" THEN ForgeInit
+        ELSE doc \in Docs /\ subj \in Subjects /\ phase = 0 /\ fb = NoBlob /\ fca = "-"
+Next == IF Slice = "forge" THEN ForgeNext
+        ELSE phase = 0 /\ phase' = 1 /\ UNCHANGED <<doc, subj, fb, fca>>
 Spec == Init /\ [][Next]_vars
 
 (* ------------------------------- invariants ------------------------------ *)
@@ -140,9 +164,26 @@ Inv_AcceptedOnlyAsSigned ==
   Slice = "sig" => \A b \in Blobs, ca \in {"CA", "other"} :
      LET v == Verify(b, ca) IN v.accepted => (b.signer = ca /\ v.content = b.sigOver /\ v.content = b.content)
 
+\* slice "forge": whatever is assembled without the CA's key, acceptance is admissible only for a
+\* content the configured CA made this very signature value for ...
+Inv_ForgedContentNeverAdmissible ==
+  Slice = "forge" => (Admissible(fb, fca) => (fb.content \in {"T", "O"} /\ fb.by = fca /\ fb.sig = fb.content))
+\* ... the fields outside the signature have no say in it ...
+Inv_UnsignedFieldsHaveNoSay ==
+  Slice = "forge" => (Admissible(fb, fca) = Admissible([fb EXCEPT !.un = UOrig], fca))
+\* ... and a verifier of the usual shape (digest comparison unconditional, then the signature over the
+\* signed attributes) accepts only admissible containers, whichever container fields it insists on
+Inv_ChainAcceptsOnlyAdmissible ==
+  Slice = "forge" =>
+     /\ \A strict \in {{}, {"root_type", "si_salg"}, UFields} : ChainVerify(fb, fca, strict) => Admissible(fb, fca)
+     /\ ChainVerify(fb, fca, {}) = Admissible(fb, fca)
+     /\ (FUntouched(fb) /\ fb.by = fca) => ChainVerify(fb, fca, UFields)
+
 (* ------------------------------ case dump -------------------------------- *)
-GenEdge == (Slice \notin {"sig", "table"}) =>
-   PrintT("REPLAY " \o ToJson([kind |-> "dec", doc |-> doc, subj |-> subj, q |-> QU]))
+GenEdge ==
+  CASE Slice \in {"sig", "table"} -> TRUE
+    [] Slice = "forge" -> PrintT("REPLAY " \o ToJson([kind |-> "forge", blob |-> fb', ca |-> fca']))
+    [] OTHER -> PrintT("REPLAY " \o ToJson([kind |-> "dec", doc |-> doc, subj |-> subj, q |-> QU]))
 
 \* the fnmatch table, cross-checked by checks/access.py against Python's fnmatch.fnmatchcase
 TablePrinted ==
